@@ -140,6 +140,27 @@ def run_history(ops, path, prop, snap=False, model=True, oracle_timeout=600):
     return {'text': text, 'g': g, 'm': m, 'diff': d, 'spec': rel, 'other': other}
 
 
+def big_reopen_leg(rng, path, n=20000):
+    """C02 on a file with tens of thousands of records (more than any batch or buffer an open might use): written,
+    reopened read-only and read-write, compared with the dictionary specification (no model run: the state line after
+    every operation would be quadratic)"""
+    q, dim = 8, 2
+    ops = [{'op': 40, 'dim': dim, 'q': q, 'metric': 0, 'json': options_json(path, 0, dim, q)}]
+    for i in range(n):
+        ops.append({'op': 20, 'id': i * 7 + 1, 'vec': P(data=bytes([i % 251, i % 13])), 'meta': P(seed=i + 1, n=rng.choice([0, 3, 9])), 'nostate': True})
+    probe = [{'op': 23, 'id': rng.randrange(n) * 7 + 1} for _ in range(8)]
+    for mode in (2, 1, 2, 0, 1):
+        ops += [{'op': 30, 'mode': mode, 'nostate': True}, {'op': 25}, {'op': 24}] + probe
+    # two processors: whatever an open does in parallel is scheduled unevenly, and per-processor limits are low
+    g, rc, err = run_harness(['store', path], render(ops), timeout=900, env=dict(os.environ, GOMAXPROCS='2'))
+    sc = spec_check(ops, g)
+    if sc is None and rc != 0:
+        sc = {'kind': 'died', 'what': 'harness exited with status %s: %s' % (rc, err[-300:])}
+    if sc and len(str(sc)) > 1500:
+        sc = {k: (v if len(str(v)) < 300 else str(v)[:300] + '...') for k, v in sc.items()}
+    return sc, len(ops)
+
+
 def store_property(prop, tier, seed, histories, level_note, replay=None, snap=False):
     chk = Check(prop, tier, seed)
     build = build_all()
@@ -214,6 +235,12 @@ def store_property(prop, tier, seed, histories, level_note, replay=None, snap=Fa
         # corpus first
         for f in sorted(glob.glob(os.path.join(VERIF, 'corpus', 'store', '*.json')) + glob.glob(os.path.join(VERIF, 'corpus', prop, '*.json'))):
             handle(rebase_ops(ops_from_js(json.load(open(f))['ops']), path), 'corpus:' + os.path.basename(f))
+        if prop == 'C02':
+            sc, nb = big_reopen_leg(random.Random(seed * 1000003 + 19), path)
+            stats['big_reopen_ops'] = nb
+            if sc and chk.violation({'engine': 'store', 'what': sc, 'origin': 'big-reopen: 20000 small documents, reopened read-only and read-write',
+                                     'signature': 'store:big-reopen:%s' % sc.get('kind')}, tag='oracle'):
+                nviol += 1
         for i, ops in enumerate(histories(random.Random(seed * 1000003 + 17), path)):
             handle(ops, 'generated:%d' % i)
             if nviol >= 3 or time.time() > t_budget:
@@ -245,7 +272,7 @@ def store_property(prop, tier, seed, histories, level_note, replay=None, snap=Fa
         'samples': samples,
         'distribution': {'op_mix': stats['op_mix'], 'reopens': stats['reopens'], 'grow_events': stats['grow_events'],
                          'error_results': stats['errors_expected'],
-                         'length_code_boundary_histories_judged_by_spec_only': stats.get('spec_only', 0)},
+                         'length_code_boundary_histories_judged_by_spec_only': stats.get('spec_only', 0), 'big_reopen_ops': stats.get('big_reopen_ops', 0)},
         'correspondence': 'model and implementation agree on every output line' if corr is None else 'DIVERGED',
         'proof_obligations_broken': broken,
     })
